@@ -301,6 +301,9 @@ class Registry:
                 and isinstance(v.d.vty, TList):
             from . import seqs
             return seqs.flatten_values(eng, v.d, line)
+        if isinstance(v, GenV) and not isinstance(start, (ConstSeq, ListV, str)):
+            from . import seqs
+            return seqs.sum_gen(eng, v, start, line)
         if isinstance(v, ListV) and not isinstance(start, (ConstSeq, ListV, str)):
             from . import seqs
             return seqs.sum_list(eng, v, start, line)
